@@ -133,7 +133,7 @@ func runCheck(id, tier, only string, seed, workers int, verbose, noMerge bool, s
 	eng, err := NewEngine(cfg)
 	if err != nil {
 		fmt.Println("INCONCLUSIVE load:", err)
-		writeEvidence(cfg, tier, seed, nil, nil, []string{"load failed: " + err.Error()}, time.Since(start), 0, 0)
+		writeEvidence(cfg, tier, seed, nil, nil, []string{"load failed: " + err.Error()}, time.Since(start), 0, 0, 0)
 		return 3
 	}
 	if tier == "thorough" {
@@ -154,6 +154,7 @@ func runCheck(id, tier, only string, seed, workers int, verbose, noMerge bool, s
 	var inconcl []string
 	exit := 0
 	nReplayed := 0
+	nWitness := 0
 	var reported []string
 	for _, h := range cfg.Harnesses {
 		if only != "" && h.Name != only {
@@ -192,7 +193,28 @@ func runCheck(id, tier, only string, seed, workers int, verbose, noMerge bool, s
 		for _, s := range r.Inconcl {
 			inconcl = append(inconcl, h.Name+": "+s)
 		}
+		seenWitness := map[string]bool{}
 		for _, v := range r.Violations {
+			if v.Kind == "assert" && contains(h.Witness, v.Tag) {
+				// translator validation: the solver's model of a deliberately falsifiable
+				// assertion must reproduce when the real build runs on the same inputs
+				seenWitness[v.Tag] = true
+				ok, note := false, "replay disabled"
+				if !noReplay {
+					ok, note = nativeReplay(cfg, h, v)
+				}
+				v.Replayed, v.ReplayNote = ok, "witness: "+note
+				if ok {
+					nWitness++
+					if verbose {
+						fmt.Printf("witness %s/%s reproduced natively\n", h.Name, v.Tag)
+					}
+				} else if !noReplay {
+					path := saveViolation(id, v)
+					inconcl = append(inconcl, fmt.Sprintf("%s: translator-validation: witness %s did not reproduce against the real build (%s) file=%s", h.Name, v.Tag, note, path))
+				}
+				continue
+			}
 			// replay against the real code
 			mode := h.Replay
 			if mode == "" {
@@ -246,12 +268,22 @@ func runCheck(id, tier, only string, seed, workers int, verbose, noMerge bool, s
 			fmt.Printf("VIOLATION property=%s replay=%s\n", id, path)
 			exit = 1
 		}
+		for _, w := range h.Witness {
+			if !seenWitness[w] {
+				inconcl = append(inconcl, fmt.Sprintf("%s: translator-validation: witness %s was not produced", h.Name, w))
+			}
+		}
 	}
 	nviol := 0
-	for _, r := range results {
-		nviol += len(r.Violations)
+	for i, r := range results {
+		_ = i
+		for _, v := range r.Violations {
+			if !strings.HasPrefix(v.ReplayNote, "witness: ") {
+				nviol++
+			}
+		}
 	}
-	writeEvidence(cfg, tier, seed, eng, results, inconcl, time.Since(start), nviol, nReplayed)
+	writeEvidence(cfg, tier, seed, eng, results, inconcl, time.Since(start), nviol, nReplayed, nWitness)
 	if exit == 1 {
 		if verbose {
 			for _, s := range inconcl {
@@ -449,7 +481,7 @@ func runWithTimeout(cmd *exec.Cmd, d time.Duration) (string, error) {
 
 // ---------- evidence ----------
 
-func writeEvidence(cfg *CheckCfg, tier string, seed int, eng *Engine, results []*HarnessResult, inconcl []string, wall time.Duration, nviol, nReplayed int) {
+func writeEvidence(cfg *CheckCfg, tier string, seed int, eng *Engine, results []*HarnessResult, inconcl []string, wall time.Duration, nviol, nReplayed, nWitness int) {
 	ev := Evidence{PropertyID: cfg.Property, Tier: tier, Seed: seed, Level: "model_checking", Coverage: map[string]any{}, WallS: wall.Seconds(), Violations: nviol}
 	states, trans, obl, dis, queries := 0, int64(0), 0, 0, 0
 	var solverT time.Duration
@@ -515,13 +547,14 @@ func writeEvidence(cfg *CheckCfg, tier string, seed int, eng *Engine, results []
 	}
 	ev.Coverage["states"] = states
 	ev.Coverage["transitions"] = trans
-	ev.Coverage["traces_validated_against_impl"] = nReplayed
+	ev.Coverage["traces_validated_against_impl"] = nReplayed + nWitness
+	ev.Coverage["translator_witnesses_validated"] = nWitness
 	ev.Coverage["samples"] = samples
 	ev.Coverage["obligations"] = obl
 	ev.Coverage["discharged"] = dis
 	ev.Coverage["solver_queries"] = queries
 	ev.Coverage["solver_time_s"] = solverT.Seconds()
-	ev.Coverage["solver"] = "z3 4.8.12 (-in, incremental push/pop, 400 ms budget) with one-shot non-incremental fallback (z3-new 5.1.0, then z3 4.8.12) under the full per-query timeout"
+	ev.Coverage["solver"] = "z3 4.8.12 (-in, incremental push/pop, 250 ms budget) with one-shot non-incremental fallback (z3-new 5.1.0, then z3 4.8.12) under the full per-query timeout"
 	ev.Coverage["functions_encoded"] = sortedSet(funcs)
 	ev.Coverage["models_substituted"] = sortedSet(stubs)
 	ev.Coverage["harnesses"] = harnesses
@@ -533,9 +566,13 @@ func writeEvidence(cfg *CheckCfg, tier string, seed int, eng *Engine, results []
 	if ev.Assumptions == nil {
 		ev.Assumptions = []string{}
 	}
-	os.MkdirAll(filepath.Join(verifDir(), "evidence"), 0o755)
+	sub := "evidence"
+	if !strings.HasPrefix(cfg.Property, "C") {
+		sub = "selftest" // engine self-tests are not properties
+	}
+	os.MkdirAll(filepath.Join(verifDir(), sub), 0o755)
 	b, _ := json.MarshalIndent(ev, "", " ")
-	os.WriteFile(filepath.Join(verifDir(), "evidence", cfg.Property+".json"), b, 0o644)
+	os.WriteFile(filepath.Join(verifDir(), sub, cfg.Property+".json"), b, 0o644)
 }
 
 func sortedSet(m map[string]bool) []string {
